@@ -72,14 +72,14 @@ def relayout(arr, layout):
 def mk_array(cells, shape=None, dtype="float", maskform="auto", payload=0):
     """cells: list of Fraction|int|float|None (None = missing).  maskform for arrays without missing cells:
     'nomask' | 'false' (explicit all-False mask).  payload: number stored beneath missing cells."""
-    np_dtype = {"float": numpy.float64, "int": numpy.int64, "float32": numpy.float32, "int32": numpy.int32}[dtype]
+    np_dtype = {"float": numpy.float64, "int": numpy.int64, "float32": numpy.float32, "int32": numpy.int32, "uint": numpy.uint64}[dtype]
     vals = []
     for c in cells:
         if c is None:
             v = payload
         else:
             v = c
-        if dtype.startswith("int"):
+        if dtype.startswith("int") or dtype == "uint":
             vals.append(int(v) if v == v else 0)
         else:
             vals.append(float(v))
@@ -89,6 +89,8 @@ def mk_array(cells, shape=None, dtype="float", maskform="auto", payload=0):
         arr = numpy.ma.MaskedArray(data, mask=numpy.array(miss, dtype=bool))
     elif maskform == "false":
         arr = numpy.ma.MaskedArray(data, mask=numpy.zeros(len(cells), dtype=bool))
+    elif maskform in ("ndarray", "auto+ndarray"):
+        arr = data  # a plain numpy.ndarray: what a plug-in command or an operation on complete data may deliver
     else:
         arr = numpy.ma.MaskedArray(data)
     if shape is not None:
